@@ -67,40 +67,40 @@ def build(disp, stack, table_name, events, mbs=None, shapes='list'):
     table = expand_table(table_name)
 
     def mw_sync(i, kind):
-        def mw(request, context, handler):
-            events.append(('mw', i, 'in', request.method, request.params or None, request.id, context is CTX))
+        def mw(rq, cx, handler):
+            events.append(('mw', i, 'in', rq.method, rq.params or None, rq.id, cx is CTX))
             if kind == 'short':
-                return Response(id=request.id, result={'short': i})
-            req = Request('ok', [i], id=request.id) if kind == 'rewrite' else request
-            r = handler(req, context)
-            events.append(('mw', i, 'out', request.method, request.params or None, request.id, context is CTX))
+                return Response(id=rq.id, result={'short': i})
+            req = Request('ok', [i], id=rq.id) if kind == 'rewrite' else rq
+            r = handler(req, cx)
+            events.append(('mw', i, 'out', rq.method, rq.params or None, rq.id, cx is CTX))
             if kind == 'wrap' and not isinstance(r, UnsetType) and r.is_success:
                 return Response(id=r.id, result={'w': i, 'inner': r.result})
             return r
         return mw
 
     def mw_async(i, kind):
-        async def mw(request, context, handler):
-            events.append(('mw', i, 'in', request.method, request.params or None, request.id, context is CTX))
+        async def mw(rq, cx, handler):
+            events.append(('mw', i, 'in', rq.method, rq.params or None, rq.id, cx is CTX))
             if kind == 'short':
-                return Response(id=request.id, result={'short': i})
-            req = Request('ok', [i], id=request.id) if kind == 'rewrite' else request
-            r = await handler(req, context)
-            events.append(('mw', i, 'out', request.method, request.params or None, request.id, context is CTX))
+                return Response(id=rq.id, result={'short': i})
+            req = Request('ok', [i], id=rq.id) if kind == 'rewrite' else rq
+            r = await handler(req, cx)
+            events.append(('mw', i, 'out', rq.method, rq.params or None, rq.id, cx is CTX))
             if kind == 'wrap' and not isinstance(r, UnsetType) and r.is_success:
                 return Response(id=r.id, result={'w': i, 'inner': r.result})
             return r
         return mw
 
     def eh_sync(hid, kind):
-        def eh(request, context, error):
-            events.append(('eh', hid, request.method, request.id, error.code, context is CTX))
+        def eh(rq, cx, error):
+            events.append(('eh', hid, rq.method, rq.id, error.code, cx is CTX))
             return JsonRpcError(new_code(hid), 'replaced') if kind == 'replace' else error
         return eh
 
     def eh_async(hid, kind):
-        async def eh(request, context, error):
-            events.append(('eh', hid, request.method, request.id, error.code, context is CTX))
+        async def eh(rq, cx, error):
+            events.append(('eh', hid, rq.method, rq.id, error.code, cx is CTX))
             return JsonRpcError(new_code(hid), 'replaced') if kind == 'replace' else error
         return eh
 
